@@ -149,6 +149,53 @@ Proof.
   - reflexivity.
 Qed.
 
+(* ---------- %x of a string ---------- *)
+
+Lemma hexd_hex : forall n, 0 <= n < 16 -> is_hex (hexd n) = true.
+Proof.
+  intros n H. unfold hexd, is_hex, is_digit. destruct (n <? 10) eqn:E.
+  - apply Z.ltb_lt in E. replace ((48 <=? 48 + n) && (48 + n <=? 57)) with true; [reflexivity|].
+    symmetry. apply andb_true_intro. split; apply Z.leb_le; lia.
+  - apply Z.ltb_ge in E. replace ((97 <=? 87 + n) && (87 + n <=? 102)) with true; [rewrite orb_true_r; reflexivity|].
+    symmetry. apply andb_true_intro. split; apply Z.leb_le; lia.
+Qed.
+
+Lemma hexd_inj : forall a b, 0 <= a < 16 -> 0 <= b < 16 -> hexd a = hexd b -> a = b.
+Proof.
+  intros a b Ha Hb. unfold hexd. destruct (a <? 10) eqn:E1, (b <? 10) eqn:E2;
+    try apply Z.ltb_lt in E1; try apply Z.ltb_lt in E2; try apply Z.ltb_ge in E1; try apply Z.ltb_ge in E2; lia.
+Qed.
+
+Lemma is_byte_spec : forall b, is_byte b = true -> 0 <= b < 256.
+Proof. unfold is_byte. intros b H. apply andb_prop in H as [H1 H2]. apply Z.leb_le in H1. apply Z.ltb_lt in H2. lia. Qed.
+
+Lemma byte_nibbles : forall b, 0 <= b < 256 -> 0 <= b / 16 < 16 /\ 0 <= b mod 16 < 16.
+Proof.
+  intros b H. split.
+  - split; [apply Z.div_pos; lia|apply Z.div_lt_upper_bound; lia].
+  - apply Z.mod_pos_bound. lia.
+Qed.
+
+Lemma r_hex_hex : forall s, forallb is_byte s = true -> forallb is_hex (r_hex s) = true.
+Proof.
+  induction s as [|b r IH]; cbn [r_hex forallb]; [reflexivity|]. intros H. apply andb_prop in H as [Hb Hr].
+  apply is_byte_spec in Hb. destruct (byte_nibbles b Hb) as [N1 N2].
+  rewrite (hexd_hex _ N1), (hexd_hex _ N2), (IH Hr). reflexivity.
+Qed.
+
+Lemma r_hex_inj : forall s1 s2, forallb is_byte s1 = true -> forallb is_byte s2 = true ->
+  r_hex s1 = r_hex s2 -> s1 = s2.
+Proof.
+  induction s1 as [|a r1 IH]; intros [|b r2] H1 H2; cbn [r_hex forallb] in *; intros E; try discriminate E;
+    [reflexivity|].
+  apply andb_prop in H1 as [Ha H1]. apply andb_prop in H2 as [Hb H2].
+  apply is_byte_spec in Ha. apply is_byte_spec in Hb.
+  destruct (byte_nibbles a Ha) as [A1 A2]. destruct (byte_nibbles b Hb) as [B1 B2].
+  injection E as E1 E2 E3. apply hexd_inj in E1; auto. apply hexd_inj in E2; auto.
+  f_equal; [|apply IH; auto].
+  rewrite (Z.div_mod a 16), (Z.div_mod b 16) by lia. rewrite E1, E2. reflexivity.
+Qed.
+
 (* ---------- "[e1 e2 ...]" is injective when elements are delimited by ' ' / ']' ---------- *)
 
 Definition stop (t : bytes) : Prop := exists b r, t = b :: r /\ (b = 32 \/ b = 93).
@@ -278,14 +325,14 @@ Qed.
 Lemma tok_alpha : forall sp c t, tok_ok sp t = true -> wf sp c ->
   forallb (talpha sp t) (render_tok c t) = true.
 Proof.
-  intros sp c t T W. destruct t as [s|f|f|f|f|f|f|f]; cbn [tok_ok talpha render_tok] in *.
+  intros sp c t T W. destruct t as [s|f|f|f|f|f|f|f|f]; cbn [tok_ok talpha render_tok] in *.
   - discriminate T.
   - destruct (fty_of sp f) as [[]|] eqn:F; try discriminate T.
     pose proof (wf_field _ _ _ _ W F) as V. destruct (get f c); try discriminate V.
     apply r_dec_digits. cbn [val_ok] in V. apply Z.leb_le. exact V.
   - destruct (fty_of sp f) as [[]|] eqn:F; try discriminate T.
     pose proof (wf_field _ _ _ _ W F) as V. destruct (get f c); try discriminate V.
-    apply str_ok_alpha. exact V.
+    cbn [val_ok] in V. apply andb_prop in V as [_ V]. apply str_ok_alpha. exact V.
   - destruct (fty_of sp f) as [[]|] eqn:F; try discriminate T.
     pose proof (wf_field _ _ _ _ W F) as V. destruct (get f c); try (destruct c0; discriminate V).
     apply r_oint_intch.
@@ -327,6 +374,9 @@ Proof.
         replace (is_digit 125 || calpha c0 125 || is_membch 125) with true
           by (unfold is_membch; rewrite ?orb_true_r; reflexivity).
         reflexivity.
+  - destruct (fty_of sp f) as [[]|] eqn:F; try discriminate T.
+    pose proof (wf_field _ _ _ _ W F) as V. destruct (get f c); try discriminate V.
+    cbn [val_ok] in V. apply andb_prop in V as [V _]. apply r_hex_hex. exact V.
 Qed.
 
 Lemma stop_cases : forall t, stop t -> exists b r, t = b :: r /\ (b = 32 \/ b = 93).
@@ -336,7 +386,7 @@ Lemma tok_inj : forall sp c1 c2 t f, tok_ok sp t = true -> wf sp c1 -> wf sp c2 
   render_tok c1 t = render_tok c2 t -> tok_field t = Some f -> get f c1 = get f c2.
 Proof.
   intros sp c1 c2 t f0 T W1 W2 E TF.
-  destruct t as [s|f|f|f|f|f|f|f]; cbn [tok_ok render_tok tok_field] in *; try discriminate TF;
+  destruct t as [s|f|f|f|f|f|f|f|f]; cbn [tok_ok render_tok tok_field] in *; try discriminate TF;
     injection TF as TF; subst f0;
     destruct (fty_of sp f) as [ty|] eqn:F; try discriminate T;
     destruct ty as [|c|ic| |c| |c]; try discriminate T;
@@ -389,6 +439,9 @@ Proof.
       apply Z.leb_le in V. auto.
     + apply Forall_forall. intros m Hm. specialize (V2 m Hm). apply andb_prop in V2 as [V V'].
       apply Z.leb_le in V. auto.
+  - (* %x *)
+    cbn [val_ok] in V1, V2. apply andb_prop in V1 as [V1 _]. apply andb_prop in V2 as [V2 _].
+    f_equal. apply r_hex_inj; auto.
 Qed.
 
 (* ---------- the induction over the token list ---------- *)
@@ -400,7 +453,7 @@ Lemma render_follow : forall a rest c1 c2 x1 x2,
 Proof.
   intros a rest c1 c2 x1 x2 Fo A1 A2 E. destruct rest as [|t r]; cbn [follow_ok] in Fo.
   - cbn [render] in *. rewrite !app_nil_r in E. auto.
-  - destruct t as [s| | | | | | |]; try discriminate Fo. destruct s as [|b s]; [discriminate Fo|].
+  - destruct t as [s| | | | | | | |]; try discriminate Fo. destruct s as [|b s]; [discriminate Fo|].
     apply negb_true_iff in Fo. cbn [render render_tok app] in *.
     apply split_delim2 with (a := a) in E; auto.
 Qed.
@@ -414,7 +467,7 @@ Proof.
   - destruct fm; [destruct Hf|cbn [length] in L; lia].
   - destruct fm as [|t r]; [destruct Hf|]. cbn [length] in L.
     assert (Lr : (length r <= n)%nat) by lia.
-    destruct t as [s|g|g|g|g|g|g|g].
+    destruct t as [s|g|g|g|g|g|g|g|g].
     1: { cbn [chk] in C. cbn [render render_tok] in E. apply app_inv_head in E.
          cbn [fmt_fields tok_field] in Hf. eapply IH; eauto. }
     all: cbn [chk] in C; apply andb_prop in C as [C Cr]; apply orb_prop in C as [C|C].
@@ -428,7 +481,7 @@ Proof.
       [eapply tok_inj; eauto; reflexivity | eapply IH; eauto]).
     (* special step: U64 g directly followed by an address *)
     cbn [special] in C. destruct r as [|t' r']; [discriminate C|].
-    destruct t' as [s|g'|g'|g'|g'|g'|g'|g']; try discriminate C.
+    destruct t' as [s|g'|g'|g'|g'|g'|g'|g'|g']; try discriminate C.
     apply andb_prop in C as [C Fo]. apply andb_prop in C as [T Ad].
     unfold is_addr_field in Ad. destruct (fty_of sp g') as [ty|] eqn:F'; [|discriminate Ad].
     destruct ty as [|cl| | | | |]; try discriminate Ad. destruct cl; try discriminate Ad.
@@ -442,6 +495,7 @@ Proof.
     destruct (get g' c1) as [|a1| | | | | |] eqn:G1'; try discriminate V1'.
     destruct (get g' c2) as [|a2| | | | | |] eqn:G2'; try discriminate V2'.
     cbn [val_ok str_ok] in V1, V2, V1', V2'. apply Z.leb_le in V1. apply Z.leb_le in V2.
+    apply andb_prop in V1' as [_ V1']. apply andb_prop in V2' as [_ V2'].
     rewrite !app_assoc in E.
     assert (AL : forall d a, 0 <= d -> addr_ok a = true -> forallb is_alnum (r_dec d ++ a) = true).
     { intros d a Hd Ha. rewrite forallb_app. apply andb_true_intro. split.
@@ -496,11 +550,16 @@ Proof.
 Qed.
 
 Lemma collide_sound : forall sp c1 c2, collide_b sp c1 c2 = true ->
-  wf sp c1 /\ wf sp c2 /\ relevant sp c1 <> relevant sp c2 /\ preimage sp c1 = preimage sp c2.
+  wf sp c1 /\ wf sp c2 /\ get "EventNonce" c1 = get "EventNonce" c2 /\
+  relevant sp c1 <> relevant sp c2 /\ preimage sp c1 = preimage sp c2.
 Proof.
   unfold collide_b, wf. intros sp c1 c2 H.
-  apply andb_prop in H as [H H4]. apply andb_prop in H as [H H3]. apply andb_prop in H as [H1 H2].
+  apply andb_prop in H as [H H4]. apply andb_prop in H as [H H3]. apply andb_prop in H as [H HN].
+  apply andb_prop in H as [H1 H2].
   repeat split; auto.
+  - unfold nonce_eqb in HN.
+    destruct (get "EventNonce" c1); try discriminate HN. destruct (get "EventNonce" c2); try discriminate HN.
+    apply Z.eqb_eq in HN. subst. reflexivity.
   - intros E. rewrite E in H3. rewrite (list_eqb_refl _ fval_eqb fval_eqb_refl) in H3. discriminate H3.
   - apply bytes_eqb_eq. exact H4.
 Qed.
@@ -520,5 +579,5 @@ Qed.
 (* a refuted spec is not injective (the two verdicts exclude each other) *)
 Lemma refuted_not_injective : forall sp, refuted sp -> ~ injective sp.
 Proof.
-  intros sp (c1 & c2 & W1 & W2 & N & E) I. apply N. apply I; auto.
+  intros sp (c1 & c2 & W1 & W2 & _ & N & E) I. apply N. apply I; auto.
 Qed.
